@@ -379,7 +379,8 @@ Definition uses_utc (d : desc) (variant : Z) : bool :=
 Definition pkt_time (d : desc) (c : dcfg) (variant : Z) (b : bytes) (base : Z) (host1 host2 : Z) : Z * bytes :=
   let off := base + d_off_ts d in
   if c_lidar_clock c then
-    ((if uses_utc d variant then parse_utc b off else parse_ymd (c_tz c) b off) * 1000, b)
+    let sb := skipn (Z.to_nat base) b in    (* header reads relative to the (sub) packet *)
+    ((if uses_utc d variant then parse_utc sb (d_off_ts d) else parse_ymd (c_tz c) sb (d_off_ts d)) * 1000, b)
   else
     let ts_ns := (match d_family d with Mech => host1 | Mems => host2 end) * 1000 - d_packet_duration_ns d in
     (ts_ns, if c_pkt_cb c then splice b off (if uses_utc d variant then create_utc host1 else create_ymd (c_tz c) host1) else b).
